@@ -58,7 +58,7 @@ pub fn text_of(fi: usize, nd: &ND) -> String {
 }
 
 fn small_value_text(fi: usize) -> BoxedStrategy<String> {
-    let o = gen::TermOpts { depth: 2, size: 8, deep: false, ..gen::TermOpts::main(fi) };
+    let o = gen::TermOpts { depth: 2, size: 8, deep_max: 0, ..gen::TermOpts::main(fi) };
     gen::narsese(o).prop_map(move |nd| text_of(fi, &nd)).boxed()
 }
 
@@ -66,7 +66,8 @@ pub fn value_text(fi: usize) -> BoxedStrategy<String> {
     gen::narsese(gen::TermOpts::main(fi)).prop_map(move |nd| text_of(fi, &nd)).boxed()
 }
 
-const NUMBERS: [&str; 22] = [
+const NUMBERS: [&str; 30] = [
+    "٣", "１２", "½", "²", "0.５", "1\t", ";\t", "、\u{3000}",
     "0", "1", "0.5", "0.9", "1.0", "1.5", "2", "007", ".", "..", "1.2.3", ".5", "5.", "99999999999999999999999999", "0.00000000000000000000000000000000001",
     "-1", "+5", "-", "+", "9223372036854775808", "-9223372036854775809", "18446744073709551616",
 ];
